@@ -171,8 +171,9 @@ theorem next_spec {s : Highest β} (x : β) (h : Inv P s) :
 
 theorem new_spec {n : Nat} (v : β) (hn0 : 0 < n) (hn : n ≤ P - 1) :
     ∃ s, Highest.new P n v = .ok s ∧ Inv P s ∧ Window.toList s.window = List.replicate n v := by
+  have hnP : n ≠ P := by omega
   obtain ⟨w, hw, hinv, htl, hsz⟩ := Window.new_ok (P := P) v hn
-  refine ⟨⟨v, w⟩, by simp [Highest.new, Nat.pos_iff_ne_zero.mp hn0, hw, Res.ofExcept, Res.bind],
+  refine ⟨⟨v, w⟩, by simp [Highest.new, Nat.pos_iff_ne_zero.mp hn0, hnP, hw, Res.ofExcept, Res.bind],
     ⟨hinv, by show 0 < w.size; omega, ?_⟩, htl⟩
   rw [htl]
   refine ⟨?_, ?_⟩
@@ -238,8 +239,9 @@ theorem next_spec {s : Lowest β} (x : β) (h : Inv P s) :
 
 theorem new_spec {n : Nat} (v : β) (hn0 : 0 < n) (hn : n ≤ P - 1) :
     ∃ s, Lowest.new P n v = .ok s ∧ Inv P s ∧ Window.toList s.window = List.replicate n v := by
+  have hnP : n ≠ P := by omega
   obtain ⟨w, hw, hinv, htl, hsz⟩ := Window.new_ok (P := P) v hn
-  refine ⟨⟨v, w⟩, by simp [Lowest.new, Nat.pos_iff_ne_zero.mp hn0, hw, Res.ofExcept, Res.bind],
+  refine ⟨⟨v, w⟩, by simp [Lowest.new, Nat.pos_iff_ne_zero.mp hn0, hnP, hw, Res.ofExcept, Res.bind],
     ⟨hinv, by show 0 < w.size; omega, ?_⟩, htl⟩
   rw [htl]
   refine ⟨?_, ?_⟩
